@@ -15,9 +15,13 @@ TEXT = ("Static lock-discipline analysis over the MIR of every function and clos
         "escapes (returned / stored), so the held-set analysis is complete. Decides the 'never blocks forever on "
         "libmelda's own locks' clause for one client thread and any pool size. R4: on the read path no explicit panic "
         "is dominated by the miss edge of a lookup in a keyed collection (the one structurally decidable class of "
-        "data-dependent abort). Does not decide loop termination or other data-dependent panics (unwrap/expect on "
-        "storage errors, poisoned locks).")
-TECHNIQUE = 'static analysis over rustc MIR: held-guard dataflow with receiver-sensitive lock identity, transitive acquisition summaries over the call graph (closures, dyn Adapter fan-out), lock-order cycles, parallel-region read/write conflicts, guard escape'
+        "data-dependent abort); R4c: a revision tree without a winner is a reachable state that the crate's operations report "
+        "as an error, so no unwrap/expect is applied to get_winner() without a has-winner fact nor to a Result that reports that "
+        "state. R5: every loop and every recursion has a structural termination argument (finite iteration, parent walk with "
+        "index = parent.index + 1 established at every tree insertion, work list over the block DAG, structural recursion "
+        "possibly across helpers, wrapper delegation). Does not decide other data-dependent panics (unwrap/expect on "
+        "storage errors, poisoned locks, ill-formed user input).")
+TECHNIQUE = 'static analysis over rustc MIR: held-guard dataflow with receiver-sensitive lock identity, transitive acquisition summaries over the call graph (closures, dyn Adapter fan-out), lock-order cycles, parallel-region read/write conflicts, guard escape; back-edge and call-graph-cycle classification with a ranking function (termination); contradiction rule on the winner-less tree state'
 TRUSTED = ["rustc nightly MIR construction and callee resolution",
            "std::sync semantics: Mutex is not re-entrant, RwLock may be writer-preferring",
            "distinct &Melda parameters (self/other in meld) denote distinct replicas",
